@@ -11,7 +11,8 @@ O6 == O5 + NRandom
 O7 == O6 + NShortSig
 O8 == O7 + NSigWidth
 O9 == O8 + NAlWords
-Count == O9 + NVWidth
+O10 == O9 + NVWidth
+Count == O10 + NForeign
 ItemAt(g) ==
   IF g <= O1 THEN PresenceAt(g)
   ELSE IF g <= O2 THEN BoundaryAt(g - O1)
@@ -22,7 +23,8 @@ ItemAt(g) ==
   ELSE IF g <= O7 THEN ShortSigAt(g - O6)
   ELSE IF g <= O8 THEN SigWidthAt(g - O7)
   ELSE IF g <= O9 THEN AlWordAt(g - O8)
-  ELSE VWidthAt(g - O9)
+  ELSE IF g <= O10 THEN VWidthAt(g - O9)
+  ELSE ForeignAt(g - O10)
 Histories == IF "VERIF_TIER" \in DOMAIN IOEnv /\ IOEnv.VERIF_TIER = "thorough" THEN 300 ELSE 40
 VARIABLE n
 INSTANCE GenBase
